@@ -277,6 +277,57 @@ def service_cases():
     return out
 
 
+def sibling_cases(rng, n_random):
+    """Two or three well-formed definitions whose full names are equal or differ only in letter case (short name or a
+    namespace directory), with related versions; no references between them (a reference would be C09's F7).
+    Exercises the stages after per-file reading: port-ID collisions and minor-version compatibility."""
+    out = []
+    bodies = ["@sealed\n", "uint8 a\n@sealed\n", "@extent 64\n", "uint8 a\n@extent 64\n", "@extent 128\n", "uint8 a\n@sealed\n---\n@sealed\n", "@deprecated\n@sealed\n",
+              "@union\nuint8 a\nuint16 b\n@sealed\n"]
+    names = [("Foo", "foo"), ("Foo", "FOO"), ("Foo", "Foo"), ("Foo", "fOO"), ("A", "a"), ("Foo", "Fo0")]
+    dirs = [("", ""), ("sub/", "Sub/"), ("sub/", "sub/"), ("sub/deep/", "sub/Deep/"), ("", "sub/"), ("Sub/x/", "sub/X/")]
+    versions = [("1.0", "1.0"), ("1.0", "1.1"), ("1.1", "1.0"), ("1.0", "2.0"), ("0.1", "0.2"), ("1.0", "1.255"), ("255.0", "255.1"), ("0.1", "0.1")]
+    ports = [("", ""), ("7000.", ""), ("", "7000."), ("7000.", "7000."), ("7000.", "7001.")]
+
+    def mk(d1, d2, n1, n2, v1, v2, p1, p2, b1, b2, extra=None, api=None):
+        f1 = "%s%s%s.%s.dsdl" % (d1, p1, n1, v1)
+        f2 = "%s%s%s.%s.dsdl" % (d2, p2, n2, v2)
+        if f1 == f2:
+            return
+        files = {f1: b1, f2: b2}
+        if extra:
+            files.update(extra)
+        c = ns_case(files, "names:case-variant-siblings")
+        if api:
+            c["api"] = api
+        out.append(c)
+
+    for (n1, n2) in names:
+        for (v1, v2) in versions:
+            mk("", "", n1, n2, v1, v2, "", "", bodies[0], bodies[0])
+            mk("", "", n1, n2, v1, v2, "", "", bodies[0], bodies[1], api="files")
+    for (d1, d2) in dirs:
+        for (v1, v2) in versions:
+            mk(d1, d2, "Foo", "Foo", v1, v2, "", "", bodies[2], bodies[2])
+            mk(d1, d2, "Foo", "foo", v1, v2, "", "", bodies[0], bodies[0], api="files")
+    for (p1, p2) in ports:
+        for (v1, v2) in versions[:5]:
+            mk("", "", "Foo", "foo", v1, v2, p1, p2, bodies[0], bodies[0])
+            mk("", "", "Foo", "Foo", v1, v2, p1, p2, bodies[0], bodies[0])
+    for b1 in bodies:
+        for b2 in bodies:
+            mk("", "", "Foo", "foo", "1.0", "1.1", "", "", b1, b2)
+    # three variants, an unrelated user of one variant (refers to exactly one spelling that exists once per version)
+    mk("", "", "Foo", "foo", "1.0", "1.1", "", "", bodies[0], bodies[0], extra={"FOO.1.2.dsdl": bodies[0]})
+    mk("", "", "Foo", "foo", "1.0", "1.1", "", "", bodies[0], bodies[0], extra={"Other.1.0.dsdl": "uint8 x\n@sealed\n"})
+    mk("", "", "Foo", "foo", "1.0", "1.1", "", "", bodies[0], bodies[0], extra={"Foo.1.2.dsdl": bodies[1], "foo.2.0.dsdl": bodies[0]})
+    mk("sub/", "Sub/", "Foo", "Foo", "1.0", "1.1", "", "", bodies[0], bodies[0], extra={"SUB/Foo.1.2.dsdl": bodies[0]})
+    for _ in range(n_random):
+        (n1, n2), (d1, d2), (v1, v2), (p1, p2) = rng.choice(names), rng.choice(dirs), rng.choice(versions), rng.choice(ports)
+        mk(d1, d2, n1, n2, v1, v2, p1, p2, rng.choice(bodies), rng.choice(bodies), api=rng.choice([None, None, "files"]))
+    return out
+
+
 def name_cases(rng, n_random):
     out = []
     fixed = ["\xdcn\xef.1.0.dsdl", "A B.1.0.dsdl", "1A.1.0.dsdl", "A" * 240 + ".1.0.dsdl", "a.b/A.1.0.dsdl", "A.99999999999999999999999.0.dsdl", "A.0.0.dsdl", "A.256.0.dsdl",
@@ -333,6 +384,8 @@ def generate(rng, tier):
 
     add(ns_case(dict(NS), "baseline"), "corpus")
     for c in service_cases() + nesting_cases() + control_cases() + limit_cases():
+        add(c, "targeted")
+    for c in sibling_cases(rng, 80 if tier == "quick" else 2000):
         add(c, "targeted")
     for c in name_cases(rng, 150 if tier == "quick" else 3000):
         add(c, "targeted" if c["tag"] != "names:random" else "random")
